@@ -13,6 +13,11 @@ import ALV.Spec.C15
   tie assigns equal-but-not-identical objects of one class; the model never looks at identity).
   Rejected operations (an operand cannot be hashed):
     mk: ["setu",keys]  ["setbk",before,after,v]  ["bad"]      sd: ["setref",deleted]  ["rej"]
+  Calls with a key argument of any shape (classified by `Call.toOp` / `SCall.toOp`):
+    ["kc", kind, arg, value?]   kind: "set" | "get" | "del" | "k2k" | "v2k" | "in" | "dget"
+    arg: {"s": item} (a single object) | {"t": [item, …]} (a tuple);  item: "name" | null (unhashable)
+    | a number (sd: a hashable non-string);  value: an integer | null (unhashable)
+  "init": [[keys, v], …]  (mk) the arguments of the constructor, collapsed by `dictOf`
   "view": "all" | "last" | {"every": n}  — after which steps the state is reported (results always).
 -/
 namespace ALV.Driver.C15
@@ -32,15 +37,47 @@ def jRes : Res K V → Json
   | .keys t => Json.mkObj [("t", jKeys t)]
   | .num n => natToJson n
   | .rejected => Json.mkObj [("err", Json.str "Rejected")]
+  | .bool b => Json.bool b
+  | .pyNone => Json.str "None"
 
 def jOptVal (o : Option V) : Json := jRes (Res.ofVal o)
 def jOptKeys (o : Option (List K)) : Json := jRes (Res.ofKeys o)
 
 def getKeys (j : Json) : Except String (List K) := getList getStr j
 
+def getItem (j : Json) : Except String (KeyItem K) :=
+  match j with
+  | Json.null => pure .unhashable
+  | Json.str s => pure (.ok s)
+  | _ => throw "C15: key item must be a string or null"
+
+def getArg (j : Json) : Except String (KeyArg K) :=
+  match j.getObjVal? "s", j.getObjVal? "t" with
+  | some i, _ => do pure (.single (← getItem i))
+  | none, some t => do pure (.tuple (← getList getItem t))
+  | _, _ => throw "C15: key argument must be {\"s\": item} or {\"t\": [items]}"
+
+def getOptVal (j : Json) : Except String (Option V) :=
+  match j with
+  | Json.null => pure none
+  | _ => do pure (some (← getInt j))
+
+def parseCall (kind : String) (rest : List Json) : Except String (Call K V) := do
+  match kind, rest with
+  | "set", [a, v] => pure (.setitem (← getArg a) (← getOptVal v))
+  | "get", [a] => pure (.getitem (← getArg a))
+  | "del", [a] => pure (.delitem (← getArg a))
+  | "k2k", [a] => pure (.key2keys (← getArg a))
+  | "v2k", [v] => pure (.value2keys (← getOptVal v))
+  | "in", [a] => pure (.contains (← getArg a))
+  | "dget", [a] => pure (.dictGet (← getArg a))
+  | "len", [] => pure .len
+  | _, _ => throw s!"C15: bad mk call {kind}"
+
 def parseOp (j : Json) : Except String (Op K V) := do
   let a ← getArr j
   match a with
+  | Json.str "kc" :: Json.str kind :: rest => pure (← parseCall kind rest).toOp
   | [Json.str "set", ks, v] => pure (.set (← getKeys ks) (← getInt v))
   | [Json.str "del", k] => pure (.del (← getStr k))
   | [Json.str "get", k] => pure (.get (← getStr k))
@@ -59,9 +96,32 @@ def getAttrName (j : Json) : Except String (Option K) :=
   | Json.str s => pure (some s)
   | _ => throw "C15: attribute name must be a string or null (= default)"
 
+def getSItem (j : Json) : Except String (SKeyItem K) :=
+  match j with
+  | Json.null => pure .unhashable
+  | Json.str s => pure (.ok s)
+  | Json.int _ => pure .nonStr
+  | _ => throw "C15: name item must be a string, a number (non-string) or null"
+
+def getSArg (j : Json) : Except String (SKeyArg K) :=
+  match j.getObjVal? "s", j.getObjVal? "t" with
+  | some i, _ => do pure (.single (← getSItem i))
+  | none, some t => do pure (.tuple (← getList getSItem t))
+  | _, _ => throw "C15: key argument must be {\"s\": item} or {\"t\": [items]}"
+
+def parseSCall (kind : String) (rest : List Json) : Except String (SCall K V) := do
+  match kind, rest with
+  | "set", [a, v] => pure (.setitem (← getSArg a) (← getOptVal v))
+  | "get", [a] => pure (.getitem (← getSArg a))
+  | "del", [a] => pure (.delitem (← getSArg a))
+  | "in", [a] => pure (.contains (← getSArg a))
+  | "dget", [a] => pure (.dictGet (← getSArg a))
+  | _, _ => throw s!"C15: bad sd call {kind}"
+
 def parseSOp (j : Json) : Except String (SOp K V) := do
   let a ← getArr j
   match a with
+  | Json.str "kc" :: Json.str kind :: rest => pure (← parseSCall kind rest).toOp
   | [Json.str "set", ks, v] => pure (.set (← getKeys ks) (← getInt v))
   | [Json.str "del", k] => pure (.del (← getStr k))
   | [Json.str "get", k] => pure (.get (← getStr k))
@@ -119,14 +179,21 @@ def SOp.isRejected : SOp K V → Bool
   | .setRefused _ | .rejected => true
   | _ => false
 
+/-- is the JSON operation a call with a key argument of any shape (`["kc", …]`)?  Such a step is always
+    followed by the full view -/
+def isKeyCall (j : Json) : Bool :=
+  match j with
+  | Json.arr (Json.str "kc" :: _) => true
+  | _ => false
+
 def traceMK (every : Nat) (keys : List K) (vals : List V) (tuples : List (List K)) (i : Nat) :
-    St K V → Log K V → List (Op K V) → List Json × List Json
+    St K V → Log K V → List (Op K V × Bool) → List Json × List Json
   | _, _, [] => ([], [])
-  | s, l, op :: ops =>
+  | s, l, (op, full) :: ops =>
     let m := step s op
     let p := specStep l op
     let t := traceMK every keys vals tuples (i + 1) m.1 p.1 ops
-    let v := viewLevel every i ops.isEmpty (Op.isRejected op)
+    let v := viewLevel every i ops.isEmpty (full || Op.isRejected op)
     (Json.mkObj (("res", jRes m.2) :: (if v == 2 then viewModel m.1 keys vals tuples
         else if v == 1 then [("items", jPairs jKeys Json.int m.1.store)] else [])) :: t.1,
      Json.mkObj (("res", jRes p.2) :: (if v == 2 then viewSpec p.1 keys vals tuples
@@ -148,13 +215,13 @@ def viewSDSpec (g : SDSpec K V) (keys : List K) (vals : List V) (tuples : List (
     :: viewSpec g.log keys vals tuples
 
 def traceSD (every : Nat) (keys : List K) (vals : List V) (tuples : List (List K)) (i : Nat) :
-    SD K V → SDSpec K V → List (SOp K V) → List Json × List Json
+    SD K V → SDSpec K V → List (SOp K V × Bool) → List Json × List Json
   | _, _, [] => ([], [])
-  | s, g, op :: ops =>
+  | s, g, (op, full) :: ops =>
     let m := sdStep s op
     let p := sdSpecStep g op
     let t := traceSD every keys vals tuples (i + 1) m.1 p.1 ops
-    let v := viewLevel every i ops.isEmpty (SOp.isRejected op)
+    let v := viewLevel every i ops.isEmpty (full || SOp.isRejected op)
     (Json.mkObj (("res", jRes m.2) :: (if v == 2 then viewSDModel m.1 keys vals tuples
         else if v == 1 then [("items", jPairs jKeys Json.int m.1.mkd.store),
                              ("attrs", jPairs jAttrName Json.int m.1.attrs),
@@ -177,13 +244,23 @@ def handle (entry : String) (j : Json) : Except String Json := do
     | some o => getNat (← field o "every")
   match entry with
   | "mk" =>
+    let jops ← getArr (← field j "ops")
     let ops ← getList parseOp (← field j "ops")
-    let t := traceMK every keys vals tuples 0 (St.empty) ([] : Log K V) ops
-    let last := keys.map fun k => jOptVal (lastAssigned k ops none)
+    let init ← match j.getObjVal? "init" with
+      | some a => getList (fun p => do
+          match ← getArr p with
+          | [ks, v] => pure ((← getKeys ks), (← getInt v))
+          | _ => throw "C15: init pair must be [keys, value]") a
+      | none => pure []
+    let s0 : St K V := ofPairs init
+    let l0 : Log K V := (specRun [] (ctorOps init)).1
+    let t := traceMK every keys vals tuples 0 s0 l0 (ops.zip (jops.map isKeyCall))
+    let last := keys.map fun k => jOptVal (lastAssigned k (ctorOps init ++ ops) none)
     pure <| Json.mkObj [("model", Json.arr t.1), ("spec", Json.arr t.2), ("last", Json.arr last)]
   | "sd" =>
+    let jops ← getArr (← field j "ops")
     let ops ← getList parseSOp (← field j "ops")
-    let t := traceSD every keys vals tuples 0 (SD.empty) ({} : SDSpec K V) ops
+    let t := traceSD every keys vals tuples 0 (SD.empty) ({} : SDSpec K V) (ops.zip (jops.map isKeyCall))
     pure <| Json.mkObj [("model", Json.arr t.1), ("spec", Json.arr t.2)]
   | _ => throw s!"C15: unknown entry {entry}"
 
